@@ -541,6 +541,9 @@ def make_config(rng, i, tier='quick', force=None):
     # the other trigger of a bound attempt: few likelihood calls since the last one (boundary: one batch)
     r3 = rng.random()
     cfg['n_like_new_bound'] = None if r3 < 0.7 else (cfg['n_batch'] if r3 < 0.85 else 3 * cfg['n_batch'] + 1)
+    # the stopping rule of the exploration phase is an argument of run(): mostly the default, sometimes much earlier or later
+    r5 = rng.random()
+    cfg['f_live'] = 0.01 if r5 < 0.7 else (0.3 if r5 < 0.9 else 1e-4)
     # tiny regime (one configuration in five): very small live sets and update intervals put the run on many guards at once
     # (empty shells removed at the end of exploration -- also the first one --, bounds built from a handful of points)
     r4 = rng.random()
